@@ -178,6 +178,9 @@ def run_step(step, ctx, want_digests=False, count=True, want_tables=False):
     if step.get("inplace"):
         opts["inplace"] = True
     kwargs = ops.realize_opts(opts, ctx.objs, stream_factory) if op in ops.ALL_OPS else {}
+    if op in ops.ALL_OPS and getattr(world, "include_dir", None) and "feaIncludeDir" not in kwargs:
+        # memory-built fonts have no path to resolve include() against
+        kwargs["feaIncludeDir"] = world.include_dir
 
     with contextlib.ExitStack() as stack:
         tf = None
